@@ -25,6 +25,20 @@ def main(path):
         return 1 if "DIFF" in r.stdout else 0
     if kind in ("genc", "pml", "vhdl"):
         return replay_transpiled(rp, wd, kind)
+    if kind == "tables":
+        import rebuild, campaign, tables, findings
+        cp = campaign.Campaign("tables", "replay")
+        cp.add_chart(rebuild.chart_from_value(rp["chart"]))
+        r = tables.run_tables(cp, wd)
+        if r["failures"]:
+            print(r["failures"][0]["tail"][-2000:])
+            return 2
+        vs = [v for v in r["verdicts"] if v["why"] != "conflict-by-source-relation"]
+        for v in vs[:8]:
+            print("REJECTED:", json.dumps(v)[:1000])
+        if not vs:
+            print("ACCEPTED: all tables of this document are the specified ones on the current tree")
+        return 1 if vs else 0
     print("cannot replay kind", kind)
     return 2
 
